@@ -81,6 +81,7 @@ pub fn fail(sig: impl Into<String>, what: impl Into<String>) -> Sexp {
 }
 
 pub mod c11;
+pub mod c08;
 pub mod c18;
 pub mod c20;
 pub mod lw;
@@ -104,6 +105,7 @@ pub mod c19;
 pub fn all() -> Vec<Box<dyn Prop>> {
     vec![
         Box::new(c11::C11),
+        Box::new(c08::C08),
         Box::new(c18::C18),
         Box::new(c20::C20),
         Box::new(c02::C02),
